@@ -34,6 +34,9 @@ CHECKS = {
  "C14": dict(cat="model_checking", tech="TLA+ session-state specification (Session.tla: which caches outlive a search, Clear Hash contract) + TLC validation of two-process result traces",
    text="spec/Session.tla models the engine-lifetime state (hash contents, generation counter, history tables, resident tablebase, evaluation cache, option deltas) and the contract of Clear Hash. Process A replays a seeded prior session (1..40 searches of all limit kinds, ucinewgame, reverted option changes, tablebase roots, related positions, fixed Contempt/Hash), then Clear Hash and a probe search; a fresh process B runs the probe twice. TLC decides from the command trace that the states are Fresh with equal options and then requires identical best move, final score, PV and node count (A vs B, B vs B2).",
    note="Trusted: TLC, Session.tla, python driver. Threads=1; wall-clock driven periodic info lines are excluded from the comparison."),
+ "C07": dict(cat="model_checking", tech="TLA+ functional-consistency / symmetry specification over Chess.tla (Tr_Eval.tla) + TLC validation of evaluation traces incl. a TEXEL_VERIF hook inside real searches",
+   text="The implementation supplies the numbers, the specification (FlipColour, MirrorX and position identity of Chess.tla) decides which evaluations must agree. TLC validates pairs: incrementally maintained network state after make/unmake/null-move/copy histories vs evaluation from scratch with empty caches, the same position under another contempt through a polluted cache, every k-th evaluation performed inside real searches (observation hook) vs from scratch, colour flip with negated contempt, left-right mirror without castling rights, and every SIMD build variant the CPU supports vs the generic build, for 3-4 synthetic networks.",
+   note="Trusted: TLC, Chess.tla symmetries, harness/h_eval.cpp. Builds use -O3 like upstream (see DESIGN.md: g++ 12 -O2 miscomputes the generic path)."),
 }
 
 NOT_APPLICABLE = {
